@@ -1468,6 +1468,61 @@ func (b *Builder) branch(ifi *ssa.If, s state) (t, f *state) {
 			}
 		}
 	}
+	// ---- byte order decided by the caller: `p.ldArgWord(arg, nativeEndian == binary.LittleEndian)` with `if second {…}` in
+	// the helper: the condition is a boolean parameter (possibly negated) whose argument is the byte-order test
+	{
+		c2, neg := cond, false
+		if u, ok := c2.(*ssa.UnOp); ok && u.Op == token.NOT {
+			c2, neg = u.X, true
+		}
+		if prm, ok := c2.(*ssa.Parameter); ok {
+			v, cf := ssa.Value(prm), s.fr
+			for i := 0; i < 8; i++ {
+				q, isP := v.(*ssa.Parameter)
+				if !isP || cf == nil || cf.call == nil {
+					break
+				}
+				idx := -1
+				for k, pp := range cf.fn.Params {
+					if pp == q {
+						idx = k
+					}
+				}
+				if idx < 0 || idx >= len(cf.call.Call.Args) {
+					break
+				}
+				v, cf = cf.call.Call.Args[idx], cf.parent
+			}
+			if abo, ok := v.(*ssa.BinOp); ok && (abo.Op == token.EQL || abo.Op == token.NEQ) {
+				if which := endianTestIn(abo, cf); which != 0 {
+					want := which
+					if abo.Op == token.NEQ {
+						want = -want
+					}
+					if neg {
+						want = -want
+					}
+					known := s.env.lenz["endian"]
+					if b.cfg.Endian == "little" {
+						known = 1
+					} else if b.cfg.Endian == "big" {
+						known = -1
+					}
+					if known == 0 || int(known) == want {
+						e := s.env.clone()
+						e.lenz["endian"] = int8(want)
+						t = mk(tBlk, e)
+					}
+					if known == 0 || int(known) == -want {
+						e := s.env.clone()
+						e.lenz["endian"] = int8(-want)
+						f = mk(fBlk, e)
+					}
+					return
+				}
+			}
+		}
+	}
 	if bo, ok := cond.(*ssa.BinOp); ok {
 		// ---- byte order: nativeEndian == binary.LittleEndian / BigEndian (one consistent world per exploration)
 		if bo.Op == token.EQL || bo.Op == token.NEQ {
